@@ -147,11 +147,12 @@ class RefV(Val):
 
 
 class FnV(Val):
-    __slots__ = ("path", "gargs")
+    __slots__ = ("path", "gargs", "raw")
 
-    def __init__(self, path, gargs=()):
+    def __init__(self, path, gargs=(), raw=None):
         self.path = path
         self.gargs = tuple(gargs)
+        self.raw = raw          # the item's path as the compiler prints it (`core::num::<impl u8>::checked_add`): names the impl
 
     def __repr__(self):
         return "fn(%s)" % self.path
@@ -525,7 +526,7 @@ class Engine:
         if "array_bytes" in c:
             return BytesV(bytes(c["array_bytes"]))
         if "fn" in c:
-            return FnV(self.unit_qual(fr, strip_generics(c["fn"])), c.get("gargs", ()))
+            return FnV(self.unit_qual(fr, strip_generics(c["fn"])), c.get("gargs", ()), raw=c["fn"])
         if "fbits" in c:
             return AggV("float", {0: K(int(c["fbits"])), 1: K(c["fwidth"])})
         if "zst" in c:
@@ -1127,7 +1128,16 @@ class Engine:
                 # the function item a pointer was made from carries its generic arguments: the call is recorded (and analysed
                 # in place) like a direct call of that instantiation
                 t = dict(t)
-                t["callee"] = {"path": fv.path, "resolved": fv.path, "gargs": list(fv.gargs or ()), "resolved_gargs": list(fv.gargs or ()), "via_pointer": True}
+                t["callee"] = {"path": getattr(fv, "raw", None) or fv.path, "resolved": getattr(fv, "raw", None) or fv.path, "gargs": list(fv.gargs or ()), "resolved_gargs": list(fv.gargs or ()), "via_pointer": True}
+            elif isinstance(fv, ClosureV):
+                # a non-capturing closure coerced to a function pointer: called like the closure it is
+                try:
+                    res = self.call_closure(st, fr, fv, args, t)
+                except Exception:
+                    res = None
+                if res is not None and res is not NotImplemented:
+                    return self.finish_call(st, fr, res, dest, t.get("target"), t)
+                name = rname = "<indirect>"
             else:
                 name = rname = "<indirect>"
         else:
